@@ -589,3 +589,108 @@ Proof.
   - destruct path as [|t r]; [|reflexivity].
     apply (pick_then_parse [] ([] ++ [sw]) (defaults_of (ap_cmds a)) (fun dc => [b_name dc])); [apply Hdefs, Ht|reflexivity].
 Qed.
+
+(* ================= build_app: every command format extends the global format ================= *)
+Lemma cmd_ind' (P : cmd -> Prop) :
+  (forall name al d an en len opts args subs, Forall P subs -> P (Cmd name al d an en len opts args subs)) ->
+  forall c, P c.
+Proof.
+  intros H. fix F 1. intros [name al d an en len opts args subs]. apply H.
+  induction subs as [|s r IHr]; constructor; [apply F|exact IHr].
+Qed.
+
+Definition cmd_enabled (c : cmd) : bool := let '(Cmd _ _ _ _ en _ _ _ _) := c in en.
+Definition build_subs_of (f : fmt) : list cmd -> res (list bcmd) :=
+  fix build_subs (l : list cmd) : res (list bcmd) :=
+    match l with
+    | [] => Ok []
+    | (Cmd _ _ _ _ en _ _ _ _ as s) :: r =>
+      if en then (do b <- build_cmd (Some f) s; do bs <- build_subs r; Ok (b :: bs)) else build_subs r
+    end.
+Lemma build_subs_cons f s r :
+  build_subs_of f (s :: r) =
+  if cmd_enabled s then (do b <- build_cmd (Some f) s; do bs <- build_subs_of f r; Ok (b :: bs)) else build_subs_of f r.
+Proof. destruct s. reflexivity. Qed.
+Lemma build_cmd_eq base name al d an en len opts args subs :
+  build_cmd base (Cmd name al d an en len opts args subs) =
+  (do f <- format_of_elements (cmd_elements name al an opts args) base;
+   do bs <- build_subs_of f subs; Ok (BCmd name al d an len f bs)).
+Proof. reflexivity. Qed.
+
+Section Build.
+  Variable P : fmt -> Prop.
+  Hypothesis Hstep : forall es bf f, P bf -> format_of_elements es (Some bf) = Ok f -> P f.
+
+  Lemma build_cmd_ok : forall c base b, P base -> build_cmd (Some base) c = Ok b -> tree_ok P b.
+  Proof.
+    induction c as [name al d an en len opts args subs IH] using cmd_ind'. intros base b Hb. rewrite build_cmd_eq.
+    destruct (format_of_elements (cmd_elements name al an opts args) (Some base)) as [f|k] eqn:Ef; cbn [bind]; [|discriminate].
+    pose proof (Hstep _ _ _ Hb Ef) as Hf.
+    destruct (build_subs_of f subs) as [bs|k] eqn:Ebs; cbn [bind]; [|discriminate].
+    intros H. inversion H; subst b. clear H. apply tree_ok_unfold. cbn [b_fmt b_subs]. split; [exact Hf|].
+    revert bs Ebs. induction subs as [|s r IHr]; intros bs Ebs.
+    - cbn in Ebs. inversion Ebs. constructor.
+    - inversion IH as [|? ? Hs Hr]; subst. rewrite build_subs_cons in Ebs.
+      destruct (cmd_enabled s); [|now apply IHr].
+      destruct (build_cmd (Some f) s) as [b1|k] eqn:E1; cbn [bind] in Ebs; [|discriminate].
+      destruct (build_subs_of f r) as [bs1|k] eqn:E2; cbn [bind] in Ebs; [|discriminate].
+      inversion Ebs; subst. constructor; [eapply Hs; eauto|now apply IHr].
+  Qed.
+
+  Lemma build_cmds_ok g : P g -> forall l seen cs, build_cmds g seen l = Ok cs -> Forall (tree_ok P) cs.
+  Proof.
+    intros Hg. induction l as [|c r IH]; intros seen cs; [cbn; intros H; inversion H; constructor|].
+    destruct c as [name al d an en len opts args subs]. cbn [build_cmds].
+    destruct (negb en); [apply IH|]. destruct name as [|ch name]; [discriminate|].
+    destruct (existsb _ seen); [discriminate|].
+    destruct (build_cmd (Some g) _) as [b|k] eqn:E1; cbn [bind]; [|discriminate].
+    destruct (build_cmds g _ r) as [bs|k] eqn:E2; cbn [bind]; [|discriminate].
+    intros H. inversion H; subst. constructor; [eapply build_cmd_ok; eauto|eapply IH; eauto].
+  Qed.
+End Build.
+
+(* an option among the global options of the configuration is carried by the format of every command *)
+Theorem build_app_carries cfg a o :
+  build_app cfg = Ok a -> In o (ac_opts cfg) -> Forall (tree_ok (carries o)) (ap_cmds a).
+Proof.
+  unfold build_app. intros H Hin.
+  destruct (format_of_elements (map EArg (ac_args cfg) ++ map EOpt (ac_opts cfg)) None) as [g|k] eqn:Eg; cbn [bind] in H; [|discriminate].
+  destruct (build_cmds g [] (ac_cmds cfg)) as [cs|k] eqn:Ec; cbn [bind] in H; [|discriminate].
+  inversion H; subst a. cbn [ap_cmds].
+  apply (build_cmds_ok (carries o) (fun es bf f => carries_step es o bf f) g) with (l := ac_cmds cfg) (seen := []); [|exact Ec].
+  apply (carries_base _ o g Eg). apply in_or_app. right. now apply in_map.
+Qed.
+
+(* ================= the configuration-level statement ================= *)
+(* the global help option as DefaultApplicationConfig defines it: add_option("help", "h", Option.NO_VALUE, ...) *)
+Definition is_help_option (o : opt) : bool :=
+  str_eqb (o_long o) S_help && match o_short o with Some s => str_eqb s [104%N] | None => false end &&
+  negb (o_accepts o) && negb (o_required o) && negb (o_multi o).
+Definition defines_help (cfg : appcfg) : bool := existsb is_help_option (ac_opts cfg).
+
+Lemma is_help_option_spec o : is_help_option o = true ->
+  no_value o /\ help_switch_of o T_help /\ help_switch_of o T_h.
+Proof.
+  unfold is_help_option. intros H.
+  apply andb_prop in H as [H H5]. apply andb_prop in H as [H H4]. apply andb_prop in H as [H H3].
+  apply andb_prop in H as [H1 H2].
+  destruct (str_eqb_spec (o_long o) S_help) as [Hl|]; [|discriminate].
+  destruct (o_short o) as [s|] eqn:Es; [|discriminate]. destruct (str_eqb_spec s [104%N]) as [->|]; [|discriminate].
+  unfold no_value, help_switch_of. destruct (o_accepts o), (o_required o), (o_multi o); try discriminate. auto 10.
+Qed.
+
+(* For every application built from a configuration that defines the help option, and every line of plain tokens
+   (not empty, not "--", not option-like) that does not start with the word "help":
+   "help <line>", "<line> --help" and "<line> -h" have the same help target - the same path, or the same error. *)
+Theorem help_same_target cfg a path :
+  build_app cfg = Ok a -> defines_help cfg = true ->
+  forallb lead_ok path = true ->
+  (match path with t :: _ => str_eqb t S_help = false | [] => True end) ->
+  help_target a (S_help :: path) = help_target a (path ++ [T_help]) /\
+  help_target a (S_help :: path) = help_target a (path ++ [T_h]).
+Proof.
+  intros Hb Hd Hl Hh. unfold defines_help in Hd. apply existsb_exists in Hd as [o [Hin Ho]].
+  apply is_help_option_spec in Ho as (Hnv & H1 & H2).
+  pose proof (build_app_carries cfg a o Hb Hin) as Ht.
+  split; eapply help_same_target_app; eauto.
+Qed.
